@@ -497,6 +497,11 @@ pub fn child(seed: u64, tier: &str, from: usize) {
                 run_exec(&mut runner, &mut rep_local, text, source, globals, stream, *compare_model, &mut out)
             }
         }
+        for (k, n) in crate::execx::take_contract_counts() {
+            for _ in 0..n {
+                out.counts.push(k.clone());
+            }
+        }
         let j = json!({"nontrivial": out.nontrivial, "counts": out.counts,
             "fails": out.fails.iter().map(|(k, m, r)| json!({"kind": k, "message": m, "replay": r})).collect::<Vec<_>>()});
         println!("E {} {}", i, j);
